@@ -23,18 +23,26 @@ pub struct Case {
     pub lookups: u8,
     /// coverage style: 0 contiguous, 1 every other glyph
     pub cov: u8,
+    /// bit i set: lookup i is AUTHORED as an extension lookup (`SubstitutionLookup::Extension`), as
+    /// when a parsed font is recompiled
+    pub ext: u8,
 }
 
 impl Case {
     pub fn to_json(&self) -> Value {
-        json!({"family":"gsub","kind":self.kind,"k":self.k,"n":self.n,"lookups":self.lookups,"cov":self.cov})
+        json!({"family":"gsub","kind":self.kind,"k":self.k,"n":self.n,"lookups":self.lookups,"cov":self.cov,"ext":self.ext})
     }
     pub fn from_json(v: &Value) -> Case {
         let g = |k: &str| v[k].as_u64().unwrap_or(0);
-        Case { kind: g("kind") as u8, k: g("k") as u32, n: g("n") as u32, lookups: g("lookups") as u8, cov: g("cov") as u8 }
+        Case { kind: g("kind") as u8, k: g("k") as u32, n: g("n") as u32, lookups: g("lookups") as u8, cov: g("cov") as u8, ext: g("ext") as u8 }
     }
     fn class(&self) -> String {
-        format!("{} cov={} lookups={}", ["MultipleSubst", "AlternateSubst", "LigatureSubst", "SingleSubst2"][self.kind as usize], self.cov, self.lookups)
+        let authored = match self.ext.count_ones() {
+            0 => "none",
+            n if n as u8 == self.lookups => "all",
+            _ => "some",
+        };
+        format!("{} cov={} lookups={} authored-extension={}", ["MultipleSubst", "AlternateSubst", "LigatureSubst", "SingleSubst2"][self.kind as usize], self.cov, self.lookups, authored)
     }
 }
 
@@ -68,14 +76,26 @@ fn build(c: &Case) -> (w::Gsub, Vec<Content>) {
         }
         let g = |v: &[u16]| -> Vec<GlyphId16> { v.iter().map(|x| GlyphId16::new(*x)).collect() };
         let flag = wl::LookupFlag::empty();
+        let authored = c.ext & (1 << l) != 0;
+        type E<T> = w::ExtensionSubstFormat1<T>;
+        let ext_lookup = |e: w::ExtensionSubtable| w::SubstitutionLookup::Extension(wl::Lookup::new(flag, vec![e]));
         lookups.push(match c.kind {
-            0 => w::SubstitutionLookup::Multiple(wl::Lookup::new(flag, vec![w::MultipleSubstFormat1::new(cov, content.iter().map(|x| w::Sequence::new(g(&x.1[0]))).collect())])),
-            1 => w::SubstitutionLookup::Alternate(wl::Lookup::new(flag, vec![w::AlternateSubstFormat1::new(cov, content.iter().map(|x| w::AlternateSet::new(g(&x.1[0]))).collect())])),
-            2 => w::SubstitutionLookup::Ligature(wl::Lookup::new(
-                flag,
-                vec![w::LigatureSubstFormat1::new(cov, content.iter().map(|x| w::LigatureSet::new(x.1.iter().map(|lg| w::Ligature::new(GlyphId16::new(lg[0]), g(&lg[1..]))).collect())).collect())],
-            )),
-            _ => w::SubstitutionLookup::Single(wl::Lookup::new(flag, vec![w::SingleSubst::format_2(cov, content.iter().map(|x| GlyphId16::new(x.1[0][0])).collect())])),
+            0 => {
+                let sub = w::MultipleSubstFormat1::new(cov, content.iter().map(|x| w::Sequence::new(g(&x.1[0]))).collect());
+                if authored { ext_lookup(w::ExtensionSubtable::Multiple(E::new(2, sub))) } else { w::SubstitutionLookup::Multiple(wl::Lookup::new(flag, vec![sub])) }
+            }
+            1 => {
+                let sub = w::AlternateSubstFormat1::new(cov, content.iter().map(|x| w::AlternateSet::new(g(&x.1[0]))).collect());
+                if authored { ext_lookup(w::ExtensionSubtable::Alternate(E::new(3, sub))) } else { w::SubstitutionLookup::Alternate(wl::Lookup::new(flag, vec![sub])) }
+            }
+            2 => {
+                let sub = w::LigatureSubstFormat1::new(cov, content.iter().map(|x| w::LigatureSet::new(x.1.iter().map(|lg| w::Ligature::new(GlyphId16::new(lg[0]), g(&lg[1..]))).collect())).collect());
+                if authored { ext_lookup(w::ExtensionSubtable::Ligature(E::new(4, sub))) } else { w::SubstitutionLookup::Ligature(wl::Lookup::new(flag, vec![sub])) }
+            }
+            _ => {
+                let sub = w::SingleSubst::format_2(cov, content.iter().map(|x| GlyphId16::new(x.1[0][0])).collect());
+                if authored { ext_lookup(w::ExtensionSubtable::Single(E::new(1, sub))) } else { w::SubstitutionLookup::Single(wl::Lookup::new(flag, vec![sub])) }
+            }
         });
         expects.push(content);
     }
@@ -273,6 +293,21 @@ pub fn replay(run: &Run, case: &Value) {
     }
 }
 
+/// which lookups are authored as extension lookups: none, each single position, all
+fn ext_masks(lookups: u8, none_only: bool) -> Vec<u8> {
+    if none_only {
+        return vec![0];
+    }
+    let mut m = vec![0u8];
+    for i in 0..lookups {
+        m.push(1 << i);
+    }
+    if lookups > 1 {
+        m.push((1u8 << lookups) - 1);
+    }
+    m
+}
+
 pub fn cases(tier: Tier) -> Vec<Case> {
     let quick = tier == Tier::Quick;
     let mut out = vec![];
@@ -285,7 +320,9 @@ pub fn cases(tier: Tier) -> Vec<Case> {
                     if lookups == 3 && (k > 330 || quick && k != 150 && k != 318) {
                         continue;
                     }
-                    out.push(Case { kind, k, n: 100, lookups, cov });
+                    for ext in ext_masks(lookups, quick && !(k == 150 || k == 318 || k == 2)) {
+                        out.push(Case { kind, k, n: 100, lookups, cov, ext });
+                    }
                 }
             }
         }
@@ -298,14 +335,25 @@ pub fn cases(tier: Tier) -> Vec<Case> {
                 if lookups == 3 && (k > 98 || quick && k != 40 && k != 88) {
                     continue;
                 }
-                out.push(Case { kind: 2, k, n: 60, lookups, cov });
+                for ext in ext_masks(lookups, quick && !(k == 40 || k == 88 || k == 2)) {
+                    out.push(Case { kind: 2, k, n: 60, lookups, cov, ext });
+                }
             }
         }
     }
     // SingleSubst format 2: 2 bytes per glyph: cannot overflow alone; many lookups of 30 000 glyphs...
     // (coverage format 1 for cov = 1: 60 KB coverage + 60 KB substitutes per lookup)
     for (k, lookups) in if quick { vec![(5000u32, 2u8)] } else { vec![(5000, 2), (5000, 4)] } {
-        out.push(Case { kind: 3, k, n: 1, lookups, cov: 1 });
+        for ext in ext_masks(lookups, false) {
+            out.push(Case { kind: 3, k, n: 1, lookups, cov: 1, ext });
+        }
+    }
+    // the promotion pass with an authored extension lookup next to lookups of very different
+    // shape: one big single-subtable lookup (authored or not) + small lookups
+    for ext in 0..8u8 {
+        for kind in [0u8, 2] {
+            out.push(Case { kind, k: if kind == 0 { 200 } else { 60 }, n: if kind == 0 { 100 } else { 60 }, lookups: 3, cov: 0, ext });
+        }
     }
     out
 }
@@ -317,6 +365,7 @@ pub fn run_all(run: &Run) {
         "MultipleSubst/AlternateSubst": "k covered glyphs x sequences/sets of 100 glyphs, k swept around the 64 KiB sub-table size; 1 or 3 lookups",
         "LigatureSubst": "k first glyphs x 60 ligatures of 3..5 glyphs, k swept around 64 KiB; 1 or 3 lookups",
         "SingleSubst2": "5000 glyphs with format-1 coverage, 2 or 4 lookups",
+        "authored_extension": "each family also with none / one (every position) / all lookups authored as SubstitutionLookup::Extension",
     }));
     let results: Vec<(usize, Option<Outcome>)> = cs.par_iter().enumerate().map(|(i, c)| (i, run_case(run, c))).collect();
     let mut all = HashSet::new();
